@@ -3,6 +3,7 @@
 REV=""
 if [ "$1" = "-R" ]; then REV="-R"; shift; fi
 P="$1"; shift; shift
+case "$P" in /*) ;; *) P="$PWD/$P";; esac
 if ! git -C /repo apply $REV "$P"; then echo "PATCH DID NOT APPLY"; exit 9; fi
 cd /verif && "$@"
 RC=$?
